@@ -8,8 +8,8 @@ import (
 	"github.com/synnaxlabs/x/telem"
 )
 
-//verif:guard domain.index mu.pointers mu.RWMutex only=VerifC09IndexLockDiscipline
-//verif:guard domain.index persistHead mu.RWMutex only=VerifC09IndexLockDiscipline
+//verif:guard domain.index mu.pointers mu.RWMutex only=VerifC09IndexLockDiscipline,VerifC09GCLockDiscipline
+//verif:guard domain.index persistHead mu.RWMutex only=VerifC09IndexLockDiscipline,VerifC09GCLockDiscipline
 
 // VerifC09IndexLockDiscipline drives every index entry point (and DB.Delete / HasDataFor on top of it) on an
 // arbitrary index; the engine checks at every load/store of index.mu.pointers and index.persistHead that index.mu
@@ -66,4 +66,47 @@ func VerifC09RaceDriver() {
 		return
 	}
 	verifRaceDriverNative()
+}
+
+// VerifC09GCLockDiscipline: a real DB (in-memory file system) holding up to n domains in shared files receives a
+// delete with an arbitrary range and then a garbage collection; every load/store of index.mu.pointers and
+// index.persistHead made by Delete and GarbageCollect (outside the harness) must happen under index.mu in a
+// sufficient mode, and no lock may be left held.
+func VerifC09GCLockDiscipline() {
+	n := verifLen("n", 1, verifParam("n", 2))
+	specs := make([]VerifDomainSpec, n)
+	for i := range specs {
+		specs[i] = VerifDomainSpec{Start: telem.TimeStamp(100 * (i + 1)), End: telem.TimeStamp(100*(i+1) + 20), Data: []byte{byte(i), byte(i + 1)}}
+	}
+	db := verifBuildRealDBCfg(Config{FS: verifNewMemFS(), FileSize: 5, GCThreshold: 0.25}, specs, nil)
+	ctx := context.Background()
+	tr := telem.TimeRange{Start: telem.TimeStamp(verifInt64("tr.start")), End: telem.TimeStamp(verifInt64("tr.end"))}
+	verifAssume(tr.Start >= 0 && tr.Start <= tr.End && tr.End <= 1000)
+	zero := func(_ context.Context, _ telem.TimeStamp, t telem.TimeStamp) (telem.Size, telem.TimeStamp, error) {
+		return 0, t, nil
+	}
+	one := func(_ context.Context, _ telem.TimeStamp, t telem.TimeStamp) (telem.Size, telem.TimeStamp, error) {
+		return 1, t, nil
+	}
+	_ = db.Delete(ctx, tr, zero, one)
+	var sum uint32
+	for _, p := range db.idx.mu.pointers {
+		sum += p.offset
+	}
+	verifAssert("gc-no-error", db.GarbageCollect(ctx) == nil)
+	for _, p := range db.idx.mu.pointers {
+		sum -= p.offset
+	}
+	if sum != 0 {
+		verifReach("gc-compacted") // vacuity witness
+	}
+	verifReach("end")
+}
+
+// VerifC09GCRaceDriver (native, -race): garbage collection runs while other goroutines read the index.
+func VerifC09GCRaceDriver() {
+	if verifSymbolic() {
+		return
+	}
+	verifGCRaceDriverNative()
 }
